@@ -286,7 +286,10 @@ def main(argv=None):
         explanation=(getattr(mod, "EXPLANATION", "") or "T1: obligations generated from the real function sources and discharged by z3/cvc5 (counts in this file); "
                      "T2: bounded run-time contract checking of the real code (evaluations in this file); see DESIGN.md §6 for what each tier covers")
         + ("" if proved_all or total == 0 else f" [this run: {discharged}/{total} T1 obligations discharged, {len(undecided)} undecided items — level reported as 'other']"),
-        functions_under_contract=sorted(functions.values(), key=lambda d: (d["file"], d["lines"][0])),
+        # the real functions whose source text was interpreted (under /repo or an installed dependency);
+        # stand-ins written under /verif (stubs of third-party objects, ghost models) are listed apart: they are assumptions
+        functions_under_contract=sorted((d for d in functions.values() if not d["file"].startswith("/verif/")), key=lambda d: (d["file"], d["lines"][0])),
+        model_functions=sorted((d for d in functions.values() if d["file"].startswith("/verif/")), key=lambda d: (d["file"], d["lines"][0])),
         lemmas_checked=lemmas_checked, obligations_by_backend=by_backend, conformance_samples=conf_total, conformance_mismatches=conf_bad, solver_seconds=round(solver_s, 2),
         undecided=undecided[:50], bounded_items=sorted(notes.get("bounded", set())),
         assumed=sorted(notes.get("assumed", set())) + sorted(notes.get("assumed-assert", set())) + sorted(notes.get("assumed-precondition", set())),
@@ -312,8 +315,11 @@ def main(argv=None):
     # ---- output
     print(f"[{pid}] tier={a.tier} T1: {discharged}/{total} obligations discharged over {len(scen)} scenarios ({by_backend}), solver {solver_s:.1f}s; "
           + (f"T2: {t2['evaluations']} evaluations, {len(t2['failures'])} failures" if t2 else "T2: none") + f"; wall {wall:.1f}s")
+    seen_u: dict = {}
     for u in undecided:
-        print(f"UNDECIDED property={pid} {u}")
+        seen_u[u] = seen_u.get(u, 0) + 1
+    for u, k in seen_u.items():
+        print(f"UNDECIDED property={pid} {u}" + (f" (x{k})" if k > 1 else ""))
     for sname, tb in crashes:
         print(f"CHECKER-CRASH in {sname}:\n{tb}")
     for l in lines:
